@@ -500,9 +500,20 @@ func HarnessC07a() {
 		spineBudget = 0 // the class is stated for a version and its descendant only
 	}
 	withinSpines := func(log []string) bool { return distinct(log) <= D+spineBudget }
+	// second known finding (same cause, other quantity): when the descendant is *taller* (the tree grew), every gap
+	// between two keys of the new top node starts with a new key-less node above an unchanged chain of the old
+	// version, and the diff reads down such chains: up to two common nodes per level and gap
+	growBudget := uint64(0)
+	if verifBound("MODE") == 1 && rNew.Height > rOld.Height && rNew.Link != nil {
+		if top := loadPNode(stNew, *rNew.Link, int(rNew.Height), true); top != nil {
+			growBudget = 2 * hmax * uint64(len(top.keys)+1)
+		}
+	}
+	withinGrowth := func(log []string) bool { return verifAnd(growBudget > 0, distinct(log) <= D+growBudget) }
 	verifObserve("C15.D", D)
 	verifObserve("C15.difflinks-distinct-reads", distinct(difflinksLoads))
 	verifClass("C15.common-spine-nodes-are-read", withinSpines(difflinksLoads))
+	verifClass("C15.growth-rereads-common-chains", withinGrowth(difflinksLoads))
 	verifAssert("C15.difflinks-reads", distinct(difflinksLoads) <= 2*D+2)
 	l0, l0n = len(st.loadLog), len(stNew.loadLog)
 	err = nw.DiffIter(vctx, old, func(added, removed bool, key, av, rv interface{}) (bool, error) { return true, nil })
@@ -512,6 +523,7 @@ func HarnessC07a() {
 		diffiterLoads = append(diffiterLoads, stNew.loadLog[l0n:]...)
 	}
 	verifClass("C15.common-spine-nodes-are-read", withinSpines(diffiterLoads))
+	verifClass("C15.growth-rereads-common-chains", withinGrowth(diffiterLoads))
 	verifAssert("C15.diffiter-reads", distinct(diffiterLoads) <= 2*D+2)
 	// the cursor form (StartDiff + NextEntry until ErrNoMoreDiffs), reads counted from before StartDiff
 	l0, l0n = len(st.loadLog), len(stNew.loadLog)
@@ -533,6 +545,7 @@ func HarnessC07a() {
 		cursorLoads = append(cursorLoads, stNew.loadLog[l0n:]...)
 	}
 	verifClass("C15.common-spine-nodes-are-read", withinSpines(cursorLoads))
+	verifClass("C15.growth-rereads-common-chains", withinGrowth(cursorLoads))
 	verifAssert("C15.cursor-reads", distinct(cursorLoads) <= 2*D+2)
 	sameVersion := false
 	if rOld.Link != nil && rNew.Link != nil {
